@@ -56,7 +56,7 @@ PROPS = {
                 "scripted stores with drawn frame/batch splits, legacy stores that neither strip replica labels nor shard; <=12 series, "
                 "<=6 chunks per series, duplicate placements with equal or different chunk cuts) and one Series request (matchers, time "
                 "range, WithoutReplicaLabels on/off) executed under 3-5 proxy configurations (eager, lazy with buffer 1-8, "
-                "ResponseBatchSize 0/1/2/7/64), each in its own bubble with its own delivery order. distinct = distinct event-log hash; "
+                "ResponseBatchSize 0/1/2/7/64), each in its own bubble with its own delivery order; in a quarter of the configurations the client takes three response timeouts to accept one of its first four frames; in half of the multi-store runs one more configuration asks for a partial response while one store breaks off after 0-5 frames (judged for shape, nothing invented, nothing of a healthy store lost). distinct = distinct event-log hash; "
                 "non-trivial = more than one store and a non-empty expected answer.",
         "components": RC_COMPONENTS,
         "assumptions": ["stores stream label-sorted series (the scripted store sorts after stripping when it strips)",
@@ -120,7 +120,7 @@ PROPS = {
         "quick": {"runs": 6000, "seconds": 60},
         "thorough": {"runs": 150000, "seconds": 840},
         "rule": "one evaluation = either (a) one cluster of 1-5 stores and 2-4 sequential sharded Series requests (by/without labels, "
-                "lazy/eager, early termination by series limit or client cancellation, failing stores) or (b) one BucketedPool "
+                "lazy/eager, early termination by series limit or client cancellation, failing stores; in half of the runs the goroutine of a response set that is about to hash a received series for the shard decision is a schedulable step of its own) or (b) one BucketedPool "
                 "(drawn bucket sizes and byte budget) and 1-4 tasks with drawn Get/Put histories interleaved by the scheduler. "
                 "distinct = distinct event-log hash; non-trivial = (a) at least one shard buffer was returned, (b) at least one Get succeeded.",
         "components": {"real": RC_COMPONENTS["real"] + ["pkg/pool.BucketedPool"], "stub": RC_COMPONENTS["stub"]},
@@ -128,6 +128,6 @@ PROPS = {
                         "returned twice inside one request was returned without a hand-out in between",
                         "(b) 'bytes checked out' is what UsedBytes reports and, independently, the sum of capacities of slices handed out"],
         "text": "Seeded sampling; no exhaustive claim.",
-        "note": "sync.Pool itself cannot be inspected; returns are observed through verifhook.Event(\"shard.put\").",
+        "note": "sync.Pool itself cannot be inspected; returns are observed through verifhook.Event(\"shard.put\"), uses through Event(\"shard.use\"); a matcher of the proxy (its buffer comes from ProxyStore's pool, read through a shim) that hashes into a buffer it has returned shares it with whoever gets it next.",
     },
 }
